@@ -234,6 +234,41 @@ class Regex(Harness):
                 cl.append((f"element {i}: what re gives for that string", z3.And(z3.Not(na), elem_ok(got, x.cells[i], i))))
         return cl
 
+STR_FUNCS = {"upper": [], "lower": [], "strip": [], "str_len": [], "startswith": ["a"], "replace": ["a", "b"], "zfill": [3],
+             "isalpha": [], "find": ["a"], "add": ["!"]}
+
+class StrProxy(Harness):
+    prop = "C19"; opname = "str_proxy"
+    goals = ["vector.py:StrProxy.__init__"]
+    def __init__(self, maxn):
+        self.maxn = maxn; self.name = f"C19.strproxy.n{maxn}"
+        self.bounds = {"elements": f"0..{maxn}", "functions": sorted(STR_FUNCS)}
+        self.symbolic = ["string contents"]; self.choice_dims = ["length", "function"]
+    def conformance_ignore(self, real, pred):
+        return True       # result dtypes of the uninterpreted numpy.strings functions are not modelled
+    def build(self, ctx):
+        n = choice("n", range(self.maxn + 1))
+        name = choice("fn", sorted(STR_FUNCS))
+        return {"x": mk_col("T", n, "x", cls="Vector"), "name": name, "args": STR_FUNCS[name]}
+    def spec(self, inp, out):
+        if isinstance(out, Raised): return [(f"does not raise ({out.type}: {out.msg[:80]})", T(False))]
+        via, direct = out["via"], out["direct"]
+        if isinstance(via, Raised) or isinstance(direct, Raised):
+            return [("the proxy raises exactly when the numpy.strings function raises", T(isinstance(via, Raised) and isinstance(direct, Raised) and via.type == direct.type))]
+        cl = [("the .str proxy returns a Vector", T(out["cls"] == "Vector")),
+              ("same length and dtype as the numpy.strings function", T(isinstance(via, Arr) and isinstance(direct, Arr) and len(via) == len(direct) and via.dtype == direct.dtype))]
+        if not (isinstance(via, Arr) and isinstance(direct, Arr) and len(via) == len(direct)): return cl
+        for i, (a, b) in enumerate(zip(via.cells, direct.cells)):
+            if type(a).__name__ == "StrFnToken" or type(b).__name__ == "StrFnToken":
+                ok = type(a).__name__ == type(b).__name__ == "StrFnToken" and a.name == b.name == inp["name"] and a.args == b.args
+                cl.append((f"element {i}: the same numpy.strings function applied to the same element with the same arguments",
+                           z3.And(T(bool(ok)), symx.tocell(a.cell).eq(symx.tocell(b.cell)) if ok else T(False))))
+            else:
+                from .common import cell_ident
+                k = kind_of(via) if via.dtype != "object" else "O"
+                cl.append((f"element {i}: same result as the module function", cell_ident(a, b, k) if k != "O" else T(a == b)))
+        return cl
+
 def _plain(v):
     if isinstance(v, tuple): return [_plain(x) for x in v]
     if isinstance(v, list): return [_plain(x) for x in v]
@@ -250,4 +285,5 @@ def harnesses(tier):
     hs += [DtReplace("D", 3), DtReplace("us", 2 if q else 3), DtString("D", n)]
     for fn in ("findall", "fullmatch", "match", "search", "split", "sub", "subn"):
         hs.append(Regex(fn, 2))
+    hs.append(StrProxy(2))
     return hs
